@@ -428,11 +428,18 @@ def canon_out(samples, indices):
             + ",".join(str(int(v)) for v in np.asarray(samples["id"]).ravel()) + "]")
 
 
+_DRAW_CALLS = [0]
+
+
 def run_draw(method, n, nested, lw, us):
     from nessai.posterior import draw_posterior_samples
+    # every third call ALSO passes nlive: "If specified the weights are not computed and these weights are used instead" — the
+    # supplied log_w wins (seeded change C16-hA gave nlive the precedence)
+    _DRAW_CALLS[0] += 1
+    extra = {"nlive": 1 + _DRAW_CALLS[0] % 7} if _DRAW_CALLS[0] % 3 == 0 else {}
     try:
         with scripted(us) as st:
-            s, idx = draw_posterior_samples(nested, log_w=lw, n=n, method=method, return_indices=True)
+            s, idx = draw_posterior_samples(nested, log_w=lw, n=n, method=method, return_indices=True, **extra)
     except ScriptExhausted as e:
         return "script-exhausted " + str(e), None, None, None
     except Exception as e:  # noqa
